@@ -240,51 +240,52 @@ def liftRes {α β} (log : List Ev) : Res α → List Ev × Res β
   | .panic w => (log, .panic w)
   | _ => (log, .unmodelled)
 
+/-- the `switch` of `transform`: the new value (before `Exit`) built from the
+transformed members, and the history so far.  `rec'` is the recursive call. -/
+def rebuild (X : SetOracle) (σ : Sched) (rec' : TRec) (log : List Ev) (path : Path) (val : Value) :
+    List Ev × Res Value :=
+  let raw := val.unmark
+  let marks := val.marks
+  let cs := children X raw
+  if val.isNull || !val.isKnown then (log, .ok val)
+  else match val.ty with
+    | .list _ =>
+      if cs.isEmpty then (log, .ok val)
+      else match transformKids rec' log path cs with
+        | (log, .ok elems) => (log, (listVal elems).map (·.withMarks marks))
+        | (log, r) => liftRes log r
+    | .set _ =>
+      if cs.isEmpty then (log, .ok val)
+      else match transformKids rec' log path cs with
+        | (log, .ok elems) => (log, (setVal X elems).map (·.withMarks marks))
+        | (log, r) => liftRes log r
+    | .tuple _ =>
+      if cs.isEmpty then (log, .ok val)
+      else match transformKids rec' log path cs with
+        | (log, .ok elems) => (log, .ok ((tupleVal elems).withMarks marks))
+        | (log, r) => liftRes log r
+    | .map _ =>
+      if cs.isEmpty then (log, .ok val)
+      else match transformKids rec' log path cs with
+        | (log, .ok elems) =>
+          (log, (mapVal (match raw.v with | .smap ks _ => ks | _ => []) elems).map (·.withMarks marks))
+        | (log, r) => liftRes log r
+    | .object ns _ _ =>
+      if val.ty.equals (.object [] [] []) then (log, .ok val)
+      else
+        let order := σ path ns
+        match transformKids rec' log path (schedKids order cs) with
+        | (log, .ok nvs) => (log, .ok ((objectVal ns (unsched ns order nvs)).withMarks marks))
+        | (log, r) => liftRes log r
+    | _ => (log, .ok val)
+
 /-- `transform(path, val, t)` -/
 def transformFuel (X : SetOracle) (σ : Sched) (t : Transformer) : Nat → TRec
   | 0, log, _, _ => (log, .unmodelled)
   | fuel + 1, log, path, val0 =>
     match t.enter log path val0 with
     | .ok val =>
-      let log := log ++ [.enter path val0]
-      let rec' := transformFuel X σ t fuel
-      let raw := val.unmark
-      let marks := val.marks
-      let cs := children X raw
-      -- the `switch`: the new value (before Exit) and the history so far
-      let built : List Ev × Res Value :=
-        if val.isNull || !val.isKnown then (log, .ok val)
-        else match val.ty with
-          | .list _ =>
-            if cs.isEmpty then (log, .ok val)
-            else match transformKids rec' log path cs with
-              | (log, .ok elems) => (log, (listVal elems).map (·.withMarks marks))
-              | (log, r) => liftRes log r
-          | .set _ =>
-            if cs.isEmpty then (log, .ok val)
-            else match transformKids rec' log path cs with
-              | (log, .ok elems) => (log, (setVal X elems).map (·.withMarks marks))
-              | (log, r) => liftRes log r
-          | .tuple _ =>
-            if cs.isEmpty then (log, .ok val)
-            else match transformKids rec' log path cs with
-              | (log, .ok elems) => (log, .ok ((tupleVal elems).withMarks marks))
-              | (log, r) => liftRes log r
-          | .map _ =>
-            if cs.isEmpty then (log, .ok val)
-            else match transformKids rec' log path cs with
-              | (log, .ok elems) =>
-                (log, (mapVal (match raw.v with | .smap ks _ => ks | _ => []) elems).map (·.withMarks marks))
-              | (log, r) => liftRes log r
-          | .object ns _ _ =>
-            if val.ty.equals (.object [] [] []) then (log, .ok val)
-            else
-              let order := σ path ns
-              match transformKids rec' log path (schedKids order cs) with
-              | (log, .ok nvs) => (log, .ok ((objectVal ns (unsched ns order nvs)).withMarks marks))
-              | (log, r) => liftRes log r
-          | _ => (log, .ok val)
-      match built with
+      match rebuild X σ (transformFuel X σ t fuel) (log ++ [.enter path val0]) path val with
       | (log, .ok newVal) =>
         match t.exit log path newVal with
         | .ok r => (log ++ [.exit path newVal], .ok r)
